@@ -23,6 +23,7 @@ def run(ctx):
     # transition coverage: one history per (state, operation) pair of the model-checked universe
     scen += rc.cover_scenarios(ctx, 'OciRegistryCover_all.cfg', sample=1200 if quick else 60000)
     scen += rc.cover_scenarios(ctx, 'OciRegistryCover_broken.cfg', sample=300 if quick else None)
+    scen += rc.cover_scenarios(ctx, 'OciRegistryCover_dual.cfg', sample=500 if quick else None)
     scen += rc.cover_scenarios(ctx, 'OciRegistryCover_up.cfg', sample=500 if quick else None, probe=UP_PROBE)
     sp = rc.write_scenarios(ctx, scen)
     td = ctx.sub('traces')
